@@ -938,3 +938,7 @@ func HarnessC13BloomNew() {
 	verifrt.Assert("C13.bloom.new.first-visit", !bt.Has(c) && bt.Visit(c) && bt.Has(c) && !bt.Visit(zzvAltCid(4)) && bt.Count() == 1 && bt.Deduplicated() == 1)
 	verifrt.Reach("end")
 }
+
+// HarnessC13WalkAliases: WalkDAG over 4-node shapes with identity nodes and CIDv0/v1 aliases (thorough tier; the quick
+// tier runs these bounds as HarnessC13WalkShapes).
+func HarnessC13WalkAliases() { zzvRunWalk(verifrt.Param("N", 4), zzvParamFeatures()) }
